@@ -86,6 +86,8 @@ def gen_plan(seed, useed, index, verif_seed):
     tr = rngm.stream(useed, 'texts')
     wr = rngm.stream(seed, 'workload')
     fr = rngm.stream(seed, 'faults')
+    ur2 = rngm.stream(seed, 'variant')
+    tr2 = rngm.stream(seed, 'variant-texts')
     infos, alt, dotted = gen_lineage(ur)
     for m in infos + [alt]:
         m.texts = C.make_texts(tr, m, n=3, accept=_acceptor(m))
@@ -110,8 +112,11 @@ def gen_plan(seed, useed, index, verif_seed):
             ops.append({'op': 'parse', 'mod': mid, 'entry': entry, 'text': t, 'full': wr.random() < 0.8})
 
     baseline = fr.random() < 0.1
-    kinds = [] if baseline else [k for k in ('name_reuse', 'ctor_fail', 'forget') if fr.random() < 0.6]
+    kinds = [] if baseline else [k for k in ('name_reuse', 'ctor_fail', 'forget', 'recreate') if fr.random() < 0.6]
+    if 'recreate' in kinds and 'name_reuse' in kinds:
+        kinds.remove(fr.choice(['recreate', 'name_reuse']))
     reuse_at = wr.randrange(1, len(infos) + 1) if 'name_reuse' in kinds else None
+    stopped = False
     for i, m in enumerate(infos):
         ops.append({'op': 'define', 'mod': m.id})
         live.append(m.id)
@@ -126,6 +131,7 @@ def gen_plan(seed, useed, index, verif_seed):
             parses(wr.choice([1, 2, 3]))
             # the name now belongs to the replacement: deeper levels are not created any more
             # (Grammar() re-reads every ancestor by name) -- see DESIGN 4.1/4.2
+            stopped = True
             break
         if 'forget' in kinds and i >= 1 and fr.random() < 0.35:
             # drop an ancestor (or the newest module) from the registry while its relatives live
@@ -133,7 +139,33 @@ def gen_plan(seed, useed, index, verif_seed):
             ops.append({'op': 'forget', 'mod': victim})
             parses(wr.choice([1, 2, 3]))
             # a chain with a forgotten member can no longer be extended by name
+            stopped = True
             break
+    if 'recreate' in kinds and not stopped and len(infos) >= 2:
+        # "edit the base, re-run everything": a module that is already extended is re-created under
+        # its name with edited rules, then every deeper level is re-created from its unchanged text
+        t = wr.randrange(0, len(infos) - 1)
+        old = infos[t]
+        vs, vg = spec.gen_variant(ur2, old.spec, old.gen, parent_gen=old.parent.gen if old.parent else None)
+        v = C.ModInfo(10, old.name, old.extends, vs, vg, parent=old.parent)
+        v.texts = C.make_texts(tr2, v, n=2, accept=_acceptor(v))
+        mods[v.id] = module_entry(v)
+        texts[v.id] = v.texts
+        ops.append({'op': 'define', 'mod': v.id, 'reuse': True, 'recreate': True})
+        live.append(v.id)
+        parses(wr.choice([0, 1, 2]))
+        prev = v
+        for k in range(t + 1, len(infos)):
+            o = infos[k]
+            n = C.ModInfo(10 + k, o.name, prev.id, o.spec, o.gen, parent=prev)
+            assert n.desc == o.desc
+            n.texts = C.make_texts(tr2, n, n=2, accept=_acceptor(n))
+            mods[n.id] = module_entry(n)
+            texts[n.id] = n.texts
+            ops.append({'op': 'define', 'mod': n.id, 'reuse': True, 'recreate': True})
+            live.append(n.id)
+            parses(wr.choice([1, 2, 3]))
+            prev = n
     parses(wr.choice([1, 2, 3, 4]))
     ops.append({'op': 'probe_all'})
     return {'prop': PROP, 'verif_seed': verif_seed, 'index': index, 'run_seed': seed,
@@ -298,7 +330,9 @@ def execute(plan, schedule=None, refs=None):
                         viol.append({'check': 'registry', 'op_index': opi, 'op': op, 'shape': shape_of(me)})
                     continue
                 env.count('define')
-                if op.get('reuse'):
+                if op.get('recreate'):
+                    env.count('recreate')
+                elif op.get('reuse'):
                     env.count('name_reuse')
                 live[str(op['mod'])] = m
                 owner[me['name']] = str(op['mod'])
@@ -404,6 +438,16 @@ def _count_probes(env, me, got):
         env.count('judged_successful_parse')
 
 
+def prepare(verif_seed, index):
+    """Warm the universe-level caches (flattened models) in the group process."""
+    useed = rngm.derive('universe', verif_seed, PROP, index // RUNS_PER_UNIVERSE)
+    infos, alt, dotted = gen_lineage(rngm.stream(useed, 'universe'))
+    for m in infos + [alt]:
+        levels = [{'items': a.spec['items']} for a in _levels(m)]
+        for rd in (['late', 'early'] if F.readings_differ(levels, len(levels) - 1) else ['late']):
+            model_module(levels, len(levels) - 1, rd)
+
+
 def run_one(verif_seed, index, tier='quick'):
     seed = rngm.run_seed(verif_seed, PROP, index)
     useed = rngm.derive('universe', verif_seed, PROP, index // RUNS_PER_UNIVERSE)
@@ -429,11 +473,19 @@ def minimise(doc, budget_s=60):
     last = {}
 
     def fails(plan):
-        res = execute(plan)
-        if res.get('harness'):
+        from simkit import runner
+
+        def run():
+            res = execute(plan)
+            if res.get('harness'):
+                return None
+            return [(finding_key({'violation': v}), v) for v in res['violations']]
+        try:
+            out = runner.fork_call(run, timeout=300)
+        except runner.ForkError:
             return False
-        for v in res['violations']:
-            if finding_key({'violation': v}) == want:
+        for k, v in out or []:
+            if k == want:
                 last['v'] = v
                 return True
         return False
@@ -545,7 +597,7 @@ def coverage(agg):
         'model_unavailable': c.get('model_unavailable', 0),
         'stability_probes': c.get('stability_probes', 0),
         'availability_names_checked': c.get('availability_checked', 0),
-        'faults_fired_by_kind': {k: c.get(k, 0) for k in ('name_reuse', 'ctor_fail', 'forget')},
+        'faults_fired_by_kind': {k: c.get(k, 0) for k in ('name_reuse', 'ctor_fail', 'forget', 'recreate')},
         'probes': {k: c.get(k, 0) for k in (
             'judged_through_derived_module', 'judged_through_grandchild', 'inherited_rule_reaches_overridden_rule',
             'chain_has_super_reference', 'inherited_ignore_pattern', 'judged_successful_parse', 'define', 'define_failed')},
